@@ -6,12 +6,17 @@
        with a secret bound below the public maximum, all assignments inside them and all values of the secret conditions
        and bounds: the oblivious execution under a true guard ends with the variable values of the native execution;
      - a variable that a construct does not assign keeps its value, whatever the conditions and the enclosing guard.
+   At the level of the model: the merge primitive -- branching.if_then_else on the branch condition, through the operator
+   dispatch -- returns backup + cond * (value - backup), i.e. the core's [merge] on 0/1 conditions (C09_merge_primitive), and
+   the constraints of every block-API program are satisfied by the recorded witness (C09_constraints_satisfied = C01).
    Not proved in Coq: that Model/Prog.v's model of the block API (gen_top / ctx_enter / ctx_exit / ctx_while, which also
    carries the constraints, the guards, object identities and the nodefvals bookkeeping) refines this value-level core;
    that model is tied to the code by the trace correspondence, and the check compares every generated program with a
    native-control-flow twin, evaluates the constraints on the witness and compares shapes across branch choices. *)
-From Coq Require Import ZArith List Bool Lia.
-From PySnark.Proofs Require Import BranchCore.
+From Coq Require Import ZArith List Bool Lia Znumtheory.
+From PySnark.Base Require Import FieldZ.
+From PySnark.Model Require Import Lc Sym Good Gadgets Api Prog.
+From PySnark.Proofs Require Import BranchCore Meta FieldOk Wp WpBase GadgetsOK Values OpValues ProgOK Complete.
 Import ListNotations.
 Open Scope Z_scope.
 
@@ -21,6 +26,18 @@ Proof. exact oexec_refines. Qed.
 Theorem C09_untouched_variables_keep_their_value : forall (V : Type) (V_eq_dec : forall x y : V, {x = y} + {x <> y}) (junk : V -> (V -> Z) -> Z) (c : cmd V) g s x,
   ~ assigns V c x -> oexec V V_eq_dec junk c g s x = s x.
 Proof. exact untouched. Qed.
+
+(* the merge primitive of BranchContext.exit in the model: selection between the value after the branch and the backup *)
+Theorem C09_merge_primitive : forall (p : Z) ins ig (c : cfg) (s : @Gadgets.gst p) sg cb t f o, WpBase.Inv ins ig s sg ->
+  same_val (PLC t) (PLC f) = false ->
+  Values.returns ins ig (if_then_else c (pyop c) (PBool o cb) (PLC t) (PLC f)) s sg
+    (OpValues.is_lc ins ig (fun r => r = Sym.veval p ins ig sg (sval f) + Sym.veval p ins ig sg (sval cb) * (Sym.veval p ins ig sg (sval t) - Sym.veval p ins ig sg (sval f)))).
+Proof. intros p ins ig c s sg cb t f o I H. exact (op_select ins ig c s sg I cb t f o H). Qed.
+(* the constraints emitted by block-API programs are satisfied by the recorded witness, whichever branches are taken *)
+Theorem C09_constraints_satisfied : forall (p : Z) (c : cfg) (pr : list stmt) (ins : list Z),
+  prime p -> forallb noign pr = true ->
+  let t := model_run (p:=p) c pr ins false in Forall (holds (p:=p) (wval (st t))) (cons t).
+Proof. intros p c pr ins Hp N. exact (program_complete (field_ok_prime p Hp) c pr ins N). Qed.
 
 (* non-vacuity: a chain with two _elif and an _else inside a for loop with a secret bound, followed by a while with a break *)
 Definition ex_prog : cmd nat :=
@@ -38,4 +55,5 @@ Example C09_example :
 Proof. split; [cbn; repeat split; lia|vm_compute; reflexivity]. Qed.
 
 Print Assumptions C09_oblivious_equals_native.
+Print Assumptions C09_merge_primitive.
 Print Assumptions C09_untouched_variables_keep_their_value.
